@@ -776,7 +776,7 @@ pub fn render(tokens: &[String], trivia: Trivia, rng: &mut Rng) -> String {
                 Trivia::Single => s.push(' '),
                 Trivia::Mixed | Trivia::Rich => {
                     let tight_ok = can_be_tight(prev, tok);
-                    let r = rng.below(if trivia == Trivia::Rich { 16 } else { 10 });
+                    let r = rng.below(if trivia == Trivia::Rich { 19 } else { 10 });
                     match r {
                         0 | 1 if tight_ok => {}
                         0..=4 => s.push(' '),
@@ -790,6 +790,11 @@ pub fn render(tokens: &[String], trivia: Trivia, rng: &mut Rng) -> String {
                         12 => s.push_str("\n#define FLAG\n"),
                         13 => s.push_str(" /* é€😀 */"),
                         14 => s.push_str("\n// αβγ\n"),
+                        // conditional regions that deliver nothing: a disabled region holding text that is
+                        // not TableGen and a complete nested conditional with its own #else; empty enabled ones
+                        16 => s.push_str("\n#ifdef NEVER_DEFINED_X\n junk \"open\n#ifdef Y\n a [{\n#else\n b */\n#endif\n def ;\n#endif\n"),
+                        17 => s.push_str("\n#ifndef NEVER_DEFINED_X\n#endif\n"),
+                        18 => s.push_str("\n#ifdef NEVER_DEFINED_X\n#ifndef Z\n#else\n#endif\n#else\n#endif\n"),
                         _ => s.push_str(" /**/ "),
                     }
                 }
